@@ -257,6 +257,52 @@ pub fn case_serde(api: &dyn GlobalApi, va: &dyn VariantApi, b: &[u8]) -> Result<
             None => return Ok(0),
         }
     }
+    // error paths and every visitor entry, measured around `T::deserialize` alone with a mock
+    // whose own errors do not allocate: the only allocation that is not the library's is the
+    // clone the mock makes for the owned-data entries
+    let mut bad_text = text.clone().into_bytes();
+    let k = bad_text.len() - 3;
+    bad_text[k] = b'G';
+    let mut bad_utf8 = text.clone().into_bytes();
+    bad_utf8[k] = 0xFF;
+    bad_utf8[4] = 0xC3;
+    let docs: Vec<(bool, DeEvent, u64)> = vec![
+        (true, DeEvent::Str(String::from_utf8(bad_text.clone()).unwrap()), 0),
+        (true, DeEvent::String(String::from_utf8(bad_text.clone()).unwrap()), 1),
+        (true, DeEvent::Bytes(bad_text.clone()), 0),
+        (true, DeEvent::Bytes(bad_utf8.clone()), 0),
+        (true, DeEvent::BorrowedBytes(bad_utf8.clone()), 0),
+        (true, DeEvent::ByteBuf(bad_utf8.clone()), 1),
+        (true, DeEvent::Str(text[..text.len() - 1].to_string()), 0),
+        (true, DeEvent::Str(format!("{}0", text)), 0),
+        (true, DeEvent::Bytes(b.to_vec()), 0),
+        (true, DeEvent::U64(7), 0),
+        (true, DeEvent::Unit, 0),
+        (false, DeEvent::Bytes(b[..b.len() - 1].to_vec()), 0),
+        (false, DeEvent::Bytes([b, &[0u8][..]].concat()), 0),
+        (false, DeEvent::Bytes(text.clone().into_bytes()), 0),
+        (false, DeEvent::Str(text.clone()), 0),
+        (false, DeEvent::U64(7), 0),
+        (false, DeEvent::Bytes(b.to_vec()), 0),
+        (false, DeEvent::ByteBuf(b.to_vec()), 1),
+        (true, DeEvent::Str(text.clone()), 0),
+        (true, DeEvent::Str(text.to_ascii_lowercase().replace("t1", "T1")), 0),
+    ];
+    for (human, event, own) in docs {
+        let script = DeScript { human, event };
+        let Some((accepted, used)) = va.mock_de_allocs(&script) else { return Ok(n) };
+        n += 1;
+        if used != own {
+            return Err(format!(
+                "{}: deserializing {:?} ({}) made {} allocator calls inside Deserialize::deserialize; the mock format makes exactly {} and renders no error message",
+                v.name,
+                script,
+                if accepted { "accepted" } else { "rejected" },
+                used,
+                own
+            ));
+        }
+    }
     Ok(n)
 }
 
